@@ -1,4 +1,1 @@
-"""Tie A: generators that re-translate kernels of /repo into coq/Gen/*.v."""
-GENERATORS = {
-    'Slice': 'tools.py2coq.gen_slice',
-}
+"""Tie A: generators that re-translate kernels of /repo into coq/Gen/*.v (each plugin in tools/props names the ones it needs)."""
